@@ -35,7 +35,10 @@ def replay_hint(cex):
     nd = g.nodes[cex["node_id"]]
     if repr(nd.obj)[:120] != cex["node"]:
         return None
-    ctx = ParseContext(dialect=g.dialect, max_parse_depth=255)
+    # same history as the model: one parse context in which the hints of all grammar elements were requested in graph order
+    # (hints are cached per parse context, so what an element answers can depend on who was asked before it)
+    from models.grammar_first import FirstModel
+    ctx = FirstModel(g).ctx
     if cex["token"] is None:
         return (f"{cex['dialect']}: {cex['node']} (in {cex['owner']}) advertises a pruning hint {cex['hint']} although one of its "
                 f"leading elements has no hint at all (it can start with tokens the hint does not list)")
@@ -43,7 +46,8 @@ def replay_hint(cex):
     kept = prune_options([nd.obj], [tok], parse_context=ctx, start_idx=0)
     if not kept:
         return (f"{cex['dialect']}: prune_options discards {cex['node']} (in {cex['owner']}) for a first token {cex['token']}, "
-                f"but the grammar lets it start with that token (witness chain: {cex['chain']})")
+                f"but the grammar lets it start with that token (parse context in which every element's hint had been requested "
+                f"once, in grammar order; hint in force: {cex['hint']})")
     return None
 
 
